@@ -86,7 +86,10 @@ func (g *PG) intExpr(d int) string {
 		}
 		return fmt.Sprint(r.Intn(12))
 	}
-	switch k := r.Intn(16); {
+	switch k := r.Intn(17); {
+	case k == 16:
+		g.f("named-const")
+		return Pick(r, []string{"KA", "KB", "KA + 1", "KB - KA"})
 	case k < 4:
 		return g.intExpr(d-1) + Pick(r, []string{" + ", " - ", " * "}) + g.intExpr(d-1)
 	case k == 4:
@@ -198,7 +201,7 @@ func (g *PG) trace() {
 	}
 	g.w("println(%s)\n", strings.Join(args, ", "))
 	if g.r.Intn(4) == 0 && !g.inFunc {
-		g.w("println(\"TF\", halfF(%s)/2, wrapB(%s)+10)\n", g.intExpr(1), g.intExpr(1))
+		g.w("println(\"TF\", halfF(%s)/2, wrapB(%s)+10, halfF(1)/KB, wrapB(2)+KA*30)\n", g.intExpr(1), g.intExpr(1))
 		g.f("typed-const-results")
 	}
 }
@@ -492,7 +495,7 @@ func (g *PG) stmt(depth int) {
 // GenProgram returns a program and the set of features it uses.
 func GenProgram(r *RNG, depth int) (GoProg, map[string]bool) {
 	g := &PG{r: r, budget: 45, feat: map[string]bool{}}
-	g.w("var fuel = 80\n\ntype T struct {\n\tA int\n\tB int\n}\n\nfunc (t *T) Sum(k int) int {\n\treturn t.A + t.B*k\n}\n\nfunc (t *T) Inc() {\n\tt.A++\n\tt.B += 2\n}\n\n")
+	g.w("const KA = 7\n\nconst KB = KA*2 + 1\n\nvar fuel = 80\n\ntype T struct {\n\tA int\n\tB int\n}\n\nfunc (t *T) Sum(k int) int {\n\treturn t.A + t.B*k\n}\n\nfunc (t *T) Inc() {\n\tt.A++\n\tt.B += 2\n}\n\n")
 	g.w("func add(a int, b int) int {\n\treturn a + b\n}\n\nfunc isOdd(a int) bool {\n\treturn a%%2 != 0\n}\n\n")
 	g.w("func pair2(a int, b int) (int, int) {\n\treturn b, a + 1\n}\n\nfunc tri(a int) (int, int, int) {\n\treturn a, a + 1, a + 2\n}\n\n")
 	// results of other types than the parameters, returned as untyped constants: they take the result type
